@@ -408,8 +408,12 @@ def analyse_safe_replace(O: _Obs):
         elif probs:
             O.fail(oid, {"handler": ast.unparse(H)[:400], "problems": probs})
         else:
-            O.ok(oid, catches=ast.unparse(H.type) if H.type else "<bare>", guards=guards, removes=[ast.unparse(c) for c in hrem],
-                 note=None if H.type is None or ast.unparse(H.type) == "BaseException" else "KeyboardInterrupt/SystemExit are not cleaned up")
+            if H.type is None or ast.unparse(H.type) == "BaseException":
+                O.ok(oid, catches=ast.unparse(H.type) if H.type else "<bare>", guards=guards, removes=[ast.unparse(c) for c in hrem])
+            else:
+                O.fail(oid, {"handler": ast.unparse(H)[:400],
+                             "problems": [f"the clean-up handler catches only `{ast.unparse(H.type)}`: a KeyboardInterrupt / SystemExit raised "
+                                          "while the temp file exists is a failed write that leaves the temp file behind"]})
     # temp name visible to the handler at every site after creation
     oid = S + "o3/temp-name-known-to-handler"
     first_stmt_binds = False
@@ -1054,7 +1058,12 @@ def enumerate_faults(H, case, thunk, chk: Checker, stats, tier, light=False):
             for cname, mk in KILL_CLASSES.items():
                 lab = f"{label(rec)}!{cname}"
                 exc, calls = go({rec["k"]: (mode, mk)}, lab)
-                left, new = chk.final(case, H, lab, exc, strict_temp=False)
+                # SystemExit / KeyboardInterrupt raised INSIDE the process at a primitive are failed writes like any other (the
+                # interpreter is alive and the clean-up can run): "a failed write leaves no temporary file behind" applies.
+                # A process that dies without unwinding cannot clean up; for it only old-or-new is demanded, and that is
+                # what the boundary observer (target read before and after each primitive) decides.
+                # (a fault inside the clean-up of an earlier, natural failure is a SECOND fault: excluded as for the other classes)
+                left, new = chk.final(case, H, lab, exc, strict_temp=not rec["during_exception"])
                 sample("kill", f"{label(rec)}/{mode}/{cname}", exc, calls, left, new)
                 stats["kill"] += 1
                 stats["kill_temp_left"] += int(left)
